@@ -402,6 +402,9 @@ func (gen *Generator) GenerateShortCircuit(or bool, args []Sexp) error {
 
 	for i := size - 2; i >= 0; i-- {
 		subgen = gen.NewSubGenerator()
+		// (not a tail position, but still inside the scopes opened so far:
+		// a break or continue in this arm has to pop them)
+		subgen.scopes = gen.scopes
 		if err := subgen.Generate(args[i]); err != nil {
 			return err
 		}
@@ -433,6 +436,7 @@ func (gen *Generator) GenerateCond(args []Sexp) error {
 	// we generate the cond bottom up, so i counts down.
 	for i := len(args)/2 - 1; i >= 0; i-- {
 		subgen.Reset()
+		subgen.scopes = gen.scopes // the test is not a tail position, but it is inside the same scopes
 		err := subgen.Generate(args[2*i])
 		if err != nil {
 			return err
